@@ -11,7 +11,16 @@ Case format (JSON):
   via    : the same plus {via: apply|select|batch|assign, fn_batch, g: row-function name, kinds_out:[kind,..],
            bare: bool (single key / bare column instead of 1-tuples)}; `ncols` = number of input columns.
   kinds  : list | tuple | array | array2 (rows = vectors of width 3) | array3 (rows = 2x2 matrices) | other (bytes);
-           in an n-D column every component of a row equals the row's id in "r" (the model sees kind array + ids).
+           in an n-D column of family int every component of a row equals the row's id in "r" (the model sees kind array + ids).
+  typed  : a column may carry "e": element family (int | float | f32 | str | bool | none | mixed | nested; default int): the VALUE of
+           row id g is `elem(family, g)` (a non-integral float, a string of varying length, a bool, None, a mix of Python types, a
+           list, a vector / matrix of distinct floats ...); array columns get the family's dtype (int64 / float64 / float32 / <U8 /
+           bool / object).  `pad` is None, a legacy int, or the NAME of an entry of `PADS` (int / float / str / bool / numpy scalar
+           pads, typically of a different dtype than the data).  The model works on the row ids (elements are abstract there) with one
+           reserved id for the pad value; ids are mapped back to the typed VALUES before anything is compared, so the correspondence
+           and the oracle compare (type, repr) of every element plus dtype and shape of every emitted column.
+  failing: via-cases may carry {ignore_error: bool, poison: [row ids]}: the batch function raises for a call that sees a poisoned row
+           (first column); with ignore_error the runner skips the failing calls (see `oracle_via`).
 """
 import itertools
 
@@ -21,23 +30,35 @@ from harness.core import canon, err_kind
 
 PID = 'C19'
 TITLE = 'Re-batching conserves rows, order and column alignment'
-LEAN_MODULES = ['MlModel.Properties.C19', 'MlModel.Witness.C19']
+LEAN_MODULES = ['MlModel.Properties.C19', 'MlModel.Properties.C19Pipe', 'MlModel.Witness.C19']
 TRUSTED = [
-    'TreeFn._iterate is modelled as two re-batchers around one call per batch (treeFn); tree key selection / output '
-    'assembly (_get_inputs/_get_outputs/_normalize_outputs) is exercised by the via-cases but not modelled',
-    'modelled, not verified: more_itertools.sliced/flatten/padded, np.concatenate/np.pad, zip(strict=True) '
-    '(their list semantics are written out in Model/Rebatch.lean)',
+    'TreeFn._iterate is modelled as a chain of lazy iterators (Model/RebatchGen.lean: first re-batcher, map of the guarded call, '
+    'iter_ignore_error, second re-batcher; = the list-level treeFn when nothing fails, C19_treefn_gen_total); tree key selection / '
+    'output assembly (_get_inputs/_get_outputs/_normalize_outputs) is exercised by the via-cases but not modelled',
+    'modelled, not verified: more_itertools.sliced/flatten/padded, np.concatenate/np.pad, zip(strict=True), built-in map (resumable), '
+    'generator finalisation (their list / pull semantics are written out in Model/Rebatch.lean, Model/RebatchGen.lean)',
+    'elements are abstract in the model: columns travel as row ids, the harness maps ids back to the typed values (elem / expect_col) '
+    'before comparing (type, repr) of every element, dtype and shape of every emitted column; that numpy stores the pad value in the '
+    "column's dtype (np.asarray(pad).astype(dtype)) and keeps the dtype of a column is computed by the harness, not by the model",
 ]
-ASSUMPTIONS = ['rows are opaque values (ints in the correspondence; for ndarray columns with ndim 2/3 a row is a constant vector / '
-               'matrix carrying its id, so a torn or glued row is visible); containers are list/tuple/ndarray, '
-               'plus bytes as the representative of an unsupported container kind']
+ASSUMPTIONS = ['rows are opaque values: ints, non-integral floats, float32, strings of varying length (fixed-width <U8 arrays), bools, None, '
+               'mixed Python objects, rows that are lists, vectors / matrices of distinct floats; one dtype per array column for the whole '
+               'stream (heterogeneous dtypes across batches of one column are promoted by np.concatenate: outside the domain); pad values '
+               'that numpy can store in every array column of the case (a str pad on a float column raises ValueError in np.pad; object '
+               'arrays are not padded); containers are list/tuple/ndarray, plus bytes as the representative of an unsupported kind',
+               'failing calls: the batch function raises RuntimeError for the calls that see a poisoned row (re-raised as ValueError by '
+               '_maybe_call_fn); one function of the library keeps state (a call counter)']
 RULE = ('direct cases: small-exhaustive over batch-size sequences (len<=3, sizes 0..4 quick / len<=4, sizes 0..6 thorough) x targets x '
         'column counts x container kinds (list, tuple, 1-D array, arrays whose rows are vectors / 2x2 matrices) x pad, then random long streams and a ~10% malformed stream '
-        '(ragged columns, wrong column count, unsupported container); non-trivial = at least 2 input batches '
+        '(ragged columns, wrong column count, unsupported container); typed sweep: every container kind x element family (int, float, float32, str, bool, None, '
+        'mixed, nested) x pad value (none, int, float, str, bool, numpy scalars: mostly of another dtype than the data) x 7 size sequences that pad / merge / carry, '
+        'alone and next to a column of another kind / family, + random mixed streams; non-trivial = at least 2 input batches '
         'and the target size differs from some input batch size; distinct = distinct canonical case JSON. '
         'via cases: the same size sequences pushed through Pipeline.apply/select/batch/assign with fn_batch_size x batch_size '
         'x row functions (row-preserving and row-count-changing: twice / keep_even / explode / none, with fn_batch_size ==, != batch_size and 0) '
-        'x output container kinds, compared with the Lean model of TreeFn._iterate (treeFn)')
+        'x output container kinds, compared with the Lean model of TreeFn._iterate (treeFnGen); failing calls: 13 streams x 5 functions (one with state) x '
+        'ignore_error on/off x ONE failing call at EVERY call position, pairs, all calls, none, + random failure sets (carry buffer empty / non-empty at the '
+        'failure, rows after it: enforced), + ragged streams under ignore_error')
 
 KINDS = ['list', 'tuple', 'array']
 # 'array2' / 'array3': numpy columns whose rows are vectors of width 3 / 2x2 matrices (ndim 2 / 3).  Rows stay
@@ -50,20 +71,162 @@ def wire_kind(k):
   return 'array' if k in ND_TAIL else k
 
 
-def mk_col(kind, rows):
+# ------------------------------------------------------------------ typed element values
+# The model's elements are abstract: a column travels to it as row ids.  What a row id MEANS is fixed here: `elem(family, g)`.
+FAMS = ['int', 'float', 'f32', 'str', 'bool', 'none', 'mixed', 'nested']
+SEQ_FAMS = ['int', 'float', 'str', 'bool', 'none', 'mixed', 'nested']          # list / tuple columns hold Python objects
+ARR_FAMS = ['int', 'float', 'f32', 'str', 'bool', 'mixed', 'none']             # 1-D arrays: one dtype per column
+ND_FAMS = ['int', 'float', 'f32', 'str', 'bool']                               # arrays whose rows are vectors / matrices
+DTYPES = {'int': 'int64', 'float': 'float64', 'f32': 'float32', 'str': '<U8', 'bool': 'bool', 'none': 'object',
+          'mixed': 'object', 'nested': 'object'}
+PAD_ID = -1          # the id under which the pad value travels to the model (row ids are >= 0)
+# pad values by name (JSON cannot tell 0 from 0.0 from False reliably, and numpy scalars do not travel at all)
+PADS = {'i-1': -1, 'i0': 0, 'i7': 7, 'f0.5': 0.5, 'f-1.5': -1.5, 'f0': 0.0, 'f2': 2.0, 's': '', 'sPAD': 'PADDING',
+        'bF': False, 'bT': True, 'np_f0': np.float64(0), 'np_i-1': np.int64(-1)}
+
+
+def pad_value(p):
+  return PADS[p] if isinstance(p, str) else p
+
+
+def pad_class(p):
+  v = pad_value(p)
+  if v is None:
+    return 'none'
+  return {bool: 'bool', int: 'int', float: 'float', str: 'str'}.get(type(v), 'np')
+
+
+def fam_of(col):
+  return col.get('e', 'int')
+
+
+def elem(fam, g):
+  """The value of row id g in a column of the given family."""
+  if fam == 'int':
+    return g
+  if fam == 'float':                      # never integral: a cast to an integer dtype changes every row
+    return g / 4 + 0.125 if g % 2 == 0 else -(g + 0.5)
+  if fam == 'f32':                        # exactly representable in float32
+    return g / 4 + 0.125
+  if fam == 'str':                        # lengths 2..7: a cut to the width of the pad value changes every row
+    return f'r{g}' + 'x' * (g % 4)
+  if fam == 'bool':
+    return g % 3 == 0
+  if fam == 'none':
+    return None
+  if fam == 'mixed':
+    return [g, g + 0.5, f's{g}', g % 4 == 0, None, (g, 'a')][g % 6]
+  if fam == 'nested':                     # a row that is itself a list: flattening must stop at one level
+    return [g, g + 0.5]
+  raise ValueError(fam)
+
+
+def elem_nd(fam, g, tail):
+  """An n-D row: the components differ from each other (except family int/bool: constant = the row id, as before)."""
+  n = int(np.prod(tail))
+  if fam in ('int', 'bool'):
+    vals = [elem(fam, g)] * n
+  elif fam == 'str':
+    vals = [f'r{g}c{k}' for k in range(n)]
+  else:
+    vals = [elem(fam, g) + k / 16 for k in range(n)]
+  return np.array(vals, dtype=DTYPES[fam]).reshape(tail)
+
+
+def arr_fam(kind, fam):
+  """Families an array kind cannot hold fall back to float."""
+  ok = ND_FAMS if kind in ND_TAIL else ARR_FAMS
+  return fam if fam in ok else 'float'
+
+
+def mk_col(kind, rows, fam='int'):
   if kind == 'list':
-    return list(rows)
+    return [elem(fam, g) for g in rows]
   if kind == 'tuple':
-    return tuple(rows)
+    return tuple(elem(fam, g) for g in rows)
   if kind == 'array':
-    return np.array(rows, dtype=np.int64)
+    fam = arr_fam(kind, fam)
+    a = np.empty(len(rows), dtype=DTYPES[fam])
+    for i, g in enumerate(rows):
+      a[i] = elem(fam, g)
+    return a
   if kind in ND_TAIL:
-    tail = ND_TAIL[kind]
-    a = np.array(rows, dtype=np.int64).reshape((len(rows),) + (1,) * len(tail))
-    return np.broadcast_to(a, (len(rows),) + tail).copy()
+    fam, tail = arr_fam(kind, fam), ND_TAIL[kind]
+    a = np.empty((len(rows),) + tail, dtype=DTYPES[fam])
+    for i, g in enumerate(rows):
+      a[i] = elem_nd(fam, g, tail)
+    return a
   if kind == 'other':
     return bytes(rows)
   raise ValueError(kind)
+
+
+def tv(x):
+  """Canonical (type, repr) of an element; rows that are containers are described recursively."""
+  if isinstance(x, (list, tuple)):
+    return [type(x).__name__, [tv(y) for y in x]]
+  return [type(x).__name__, repr(x)]
+
+
+def pad_compatible(pad, batch):
+  """np.pad can only store the pad value in a column whose dtype it converts to ('' in a float column raises)."""
+  v = pad_value(pad)
+  if v is None:
+    return True
+  for c in batch:
+    if c['k'] == 'array' or c['k'] in ND_TAIL:
+      dt = DTYPES[arr_fam(c['k'], fam_of(c))]
+      if dt == 'object':
+        return False       # np.pad stores numpy scalars in object arrays: not a value the property talks about
+      try:
+        np.asarray(v).astype(dt)
+      except (ValueError, TypeError):
+        return False
+  return True
+
+
+def pad_obs(kind, fam, pad):
+  """What a padding row of a column looks like: the pad value itself in list / tuple columns; in an array column the pad value
+  stored in the column's dtype (an array has ONE dtype, and the real rows must keep theirs)."""
+  v = pad_value(pad)
+  if kind in ('list', 'tuple'):
+    return tv(v)
+  dt = DTYPES[arr_fam(kind, fam)]
+  return tv(np.full(ND_TAIL.get(kind, ()), np.asarray(v).astype(dt), dtype=dt).tolist())
+
+
+_ROW_TV = {}
+
+
+def row_obs(kind, fam, g):
+  """What row id g of a column of this kind and family looks like in an observation."""
+  key = (kind, fam, g)
+  if key not in _ROW_TV:
+    _ROW_TV[key] = col_obs(mk_col(kind, [g], fam))['v'][0]
+  return _ROW_TV[key]
+
+
+def decl_obs(col):
+  """The observation of a declared (input) column."""
+  return col_obs(mk_col(col['k'], col['r'], fam_of(col)))
+
+
+def expect_col(kind, fam, ids, pad=None):
+  """The observation of a column of the given kind / family holding the rows `ids` (PAD_ID = a padding row)."""
+  col = {'k': kind, 'v': [pad_obs(kind, fam, pad) if g == PAD_ID else row_obs(kind, fam, g) for g in ids]}
+  if kind == 'array' or kind in ND_TAIL:
+    col['dtype'] = DTYPES[arr_fam(kind, fam)]
+    col['shape'] = [len(ids)] + list(ND_TAIL.get(kind, ()))
+  return col
+
+
+def ids_of_obs(col):
+  """Row ids of an observed column of family int (first component of a vector-valued row)."""
+  def first(v):
+    while v[0] in ('list', 'tuple'):
+      v = v[1][0]
+    return int(v[1])
+  return [first(v) for v in col['v']]
 
 
 def _flat2(c):
@@ -79,34 +242,33 @@ def col_ids(c):
 
 
 def col_obs(c):
+  """Canonical observation of an emitted column: container kind, every element as (type, repr), and for arrays dtype + shape."""
   if isinstance(c, np.ndarray):
-    if c.ndim == 1:
-      return {'k': 'array', 'r': [int(x) for x in c.tolist()]}
-    # rows are vectors/matrices: the column must still be (n,) + tail and every row constant (= its id);
-    # anything else means rows were torn apart or glued together: reported with a marker kind and row id -1
-    kind = {2: 'array2', 3: 'array3'}.get(c.ndim)
-    if kind is None or tuple(c.shape[1:]) != ND_TAIL[kind]:
-      return {'k': f'array!shape{list(c.shape)}', 'r': [-1] * len(c)}
-    flat = _flat2(c)
-    ok = bool((flat == flat[:, :1]).all())
-    return {'k': kind if ok else kind + '!rows-not-constant',
-            'r': [int(r[0]) if (r == r[0]).all() else -1 for r in flat]}
+    kind = {1: 'array', 2: 'array2', 3: 'array3'}.get(c.ndim, f'array!ndim{c.ndim}')
+    return {'k': kind, 'dtype': str(c.dtype), 'shape': list(c.shape), 'v': [tv(x) for x in c.tolist()]}
   if isinstance(c, list):
-    return {'k': 'list', 'r': canon(c)}
+    return {'k': 'list', 'v': [tv(x) for x in c]}
   if isinstance(c, tuple):
-    return {'k': 'tuple', 'r': canon(c)}
+    return {'k': 'tuple', 'v': [tv(x) for x in c]}
   if isinstance(c, (bytes, bytearray)):
-    return {'k': 'other', 'r': list(c)}
-  return {'k': type(c).__name__, 'r': canon(list(c))}
+    return {'k': 'other', 'v': [tv(x) for x in c]}
+  return {'k': type(c).__name__, 'v': [tv(x) for x in list(c)]}
 
 
-def make_case(sizes, target, ncols, kinds, pad, explicit_cols, malform=None):
-  """Rows are numbered globally so that misalignment is visible: row g of column c is g*10+c."""
+def make_case(sizes, target, ncols, kinds, pad, explicit_cols, malform=None, fams=None):
+  """Rows are numbered globally so that misalignment is visible: row g of column c is g*10+c.
+  `fams`: element family per column (default int); families a kind cannot hold are replaced (`arr_fam`)."""
   batches, g = [], 0
   for s in sizes:
     b = []
     for c in range(ncols):
-      b.append({'k': kinds[c % len(kinds)], 'r': [((g + i) * 10 + c) % 250 for i in range(s)]})
+      col = {'k': kinds[c % len(kinds)], 'r': [((g + i) * 10 + c) % 250 for i in range(s)]}
+      if fams:
+        f = fams[c % len(fams)]
+        f = arr_fam(col['k'], f) if (col['k'] == 'array' or col['k'] in ND_TAIL) else ('float' if f == 'f32' else f)
+        if f != 'int':
+          col['e'] = f
+      b.append(col)
     g += s
     batches.append(b)
   case = dict(target=target, ncols=ncols if explicit_cols else 0, pad=pad, batches=batches)
@@ -171,6 +333,44 @@ def gen_direct(ctx):
     yield case
 
 
+# size sequences x target that end in a padded remainder / merge several chunks / carry a remainder into the next flush
+TYPED_SEQS = [((2, 2, 2, 2, 2), 3), ((3, 3, 3), 2), ((2,), 5), ((1, 5, 0, 3, 2), 4), ((4, 1, 2), 5), ((1, 1, 1), 2), ((3, 3), 3)]
+NUM_PADS = ['i-1', 'i0', 'f0.5', 'f-1.5', 'f0', 'bF', 'bT', 'np_f0', 'np_i-1']
+STR_PADS = ['s', 'sPAD']
+
+
+def gen_typed(ctx):
+  """Element types: every container kind x element family x pad values of other dtypes than the data."""
+  rng, quick = ctx.rng, ctx.quick
+  n = 0
+  for kind in KINDS5:
+    fams = SEQ_FAMS if kind in ('list', 'tuple') else (ND_FAMS if kind in ND_TAIL else ARR_FAMS)
+    for fam in fams:
+      for pad in [None] + NUM_PADS + STR_PADS:
+        for si, (sizes, target) in enumerate(TYPED_SEQS):
+          if not quick or (n + si) % 2 == 0 or si == 0:
+            # the column alone, and next to a column of another kind / family (alignment across differently typed columns)
+            c1 = make_case(sizes, target, 1, [kind], pad, si % 2 == 0, fams=[fam])
+            if pad_compatible(pad, c1['batches'][0]):
+              yield c1
+            k2, f2 = KINDS5[(n + si) % 5], FAMS[(n + 2 * si) % len(FAMS)]
+            c2 = make_case(sizes, target, 2, [kind, k2], pad, si % 2 == 1, fams=[fam, f2])
+            if pad_compatible(pad, c2['batches'][0]):
+              yield c2
+        n += 1
+  # random: mixed columns, long streams
+  for _ in range(400 if quick else 8000):
+    nb = rng.randrange(0, 10)
+    sizes = [rng.choice([0, 1, 1, 2, 3, 5, 8]) for _ in range(nb)]
+    target = rng.choice([1, 2, 3, 4, 5, 7, 16])
+    ncols = rng.randrange(1, 4)
+    kinds = [rng.choice(KINDS5) for _ in range(ncols)]
+    fams = [rng.choice(FAMS) for _ in range(ncols)]
+    case = make_case(sizes, target, ncols, kinds, None, rng.random() < 0.5, fams=fams)
+    pads = [p for p in [None] + NUM_PADS + STR_PADS if not case['batches'] or pad_compatible(p, case['batches'][0])]
+    case['pad'] = rng.choice(pads)
+    yield case
+
 
 # ------------------------------------------------------------------ row functions (mirrors Driver/Rebatch.lean rowFn)
 
@@ -187,7 +387,17 @@ ROW_FNS = {
     'keep_even': lambda r: [list(r)] if r[0] % 2 == 0 else [],
     'explode': lambda r: [list(r) for _ in range(r[0] % 3)],
     'none': lambda r: [],
+    # the one function WITH STATE (a call counter; see `apply_g`): row-preserving as far as sizes go
+    'callno': lambda r: [list(r)],
 }
+
+
+def apply_g(case, k, r):
+  """Output rows of the row function for input row r seen by the k-th call (0-based, failing calls counted)."""
+  if case['g'] == 'callno':
+    return [[x + 1000 * k for x in r]]
+  return ROW_FNS[case['g']](list(r))
+
 ROW_PRESERVING = ['affine', 'dup', 'first', 'id', 'rev', 'sum']
 ROW_CHANGING = ['explode', 'keep_even', 'none', 'twice']
 
@@ -262,10 +472,101 @@ def gen_via(ctx):
     case = make_via(via, sizes, rng.randrange(1, 4), rng.randrange(1, 4), nin, [rng.choice(KINDS5) for _ in range(nin)],
                     g, [rng.choice(KINDS5) for _ in range(n_out(g, nin))], malform='ragged')
     case['batches'][rng.randrange(n)][rng.randrange(nin)]['r'].append(99)
+    if rng.random() < 0.5:
+      # with ignore_error the ValueError of the FIRST re-batcher is swallowed by map_ignore_error as well (it is raised by
+      # next() of the iterator the calls are mapped over): the stream just ends there (C12's finding F-C12-fnbatch-lost); the
+      # model (treeFnGen) says the same; no oracle verdict (malformed input)
+      case['ignore_error'] = True
+      case['malform'] = 'ragged-skip'
     yield case
   # Assign with batch boundaries that differ from the incoming ones: known finding F-C19-assign (documented, few cases)
   for sizes, fb, b in [((5, 1), 0, 2), ((5, 1), 4, 3), ((5, 1), 0, 6), ((2, 2, 2), 0, 3)]:
     yield make_via('assign', sizes, b, fb, 2, ['list', 'array'], 'sum', ['list'])
+
+
+def gen_fail(ctx):
+  """Failing calls under re-batching: `apply(fn, fn_batch_size=fb, batch_size=b)` whose function raises for some calls, run with
+  and without ignore_error.  Systematic part: for every stream / (fb, b) below, ONE failing call at EVERY call position (so the
+  output re-batcher's carry buffer is empty at some failures and non-empty at others), then pairs and all-fail; then random."""
+  rng, quick = ctx.rng, ctx.quick
+
+  def mk(sizes, fb, b, g, bad_calls, skip, nin=None, kinds=None, kinds_out=None):
+    nin = nin or 1 + (len(sizes) + fb + b) % 2
+    kinds = kinds or [KINDS5[(fb + b + i) % 5] for i in range(nin)]
+    kinds_out = kinds_out or [KINDS5[(fb + 2 * b + i) % 5] for i in range(n_out(g, nin))]
+    case = make_via('apply', sizes, b, fb, nin, kinds, g=g, kinds_out=kinds_out, bare=(fb + b) % 2 == 0)
+    groups = call_groups(case)
+    case['poison'] = sorted({groups[k][len(groups[k]) // 2][0] for k in bad_calls if k < len(groups) and groups[k]})
+    case['ignore_error'] = bool(skip)
+    return case
+
+  streams = [((3, 3, 3, 3), 2, 3), ((3, 3, 3, 3), 3, 3), ((5, 1, 4, 2), 2, 3), ((4, 4, 4, 4), 3, 4), ((2, 2, 2, 1), 2, 5),
+             ((3, 3, 3, 3, 3), 2, 4), ((2, 3, 1, 4), 0, 3), ((1, 2, 3, 4, 2), 0, 4), ((6, 6), 4, 1), ((2, 2, 2, 2), 1, 3),
+             ((3, 1, 2), 0, 0), ((2, 2, 2), 0, 0), ((7, 2), 3, 2)]
+  for si, (sizes, fb, b) in enumerate(streams):
+    ncalls = len(regroup(sizes, fb))
+    for gi, g in enumerate(['id', 'sum', 'twice', 'keep_even', 'callno']):
+      if quick and (si + gi) % 2:
+        continue
+      for skip in (True, False):
+        for k in range(ncalls):
+          yield mk(sizes, fb, b, g, [k], skip)
+        yield mk(sizes, fb, b, g, [0, ncalls - 1], skip)
+        yield mk(sizes, fb, b, g, [1, 2], skip)
+        yield mk(sizes, fb, b, g, range(ncalls), skip)
+        yield mk(sizes, fb, b, g, [], skip)
+  for _ in range(250 if quick else 5000):
+    nb = rng.randrange(1, 7)
+    sizes = [rng.choice([1, 1, 2, 3, 4, 5]) for _ in range(nb)]
+    while sum(sizes) > 24:        # row ids (g*10+c) % 250 stay distinct
+      sizes.pop()
+    b = rng.choice([0, 1, 2, 3, 4, 5, 7])
+    fb = rng.choice([0, 1, 2, 3, 4, b]) if b else 0     # fn_batch_size needs batch_size
+    nin = rng.randrange(1, 4)
+    g = rng.choice(ROW_PRESERVING + ROW_CHANGING + ['callno', 'callno'])
+    ncalls = len(regroup(sizes, fb))
+    bad = [k for k in range(ncalls) if rng.random() < rng.choice([0.15, 0.4])] or [rng.randrange(ncalls)]
+    yield mk(sizes, fb, b, g, bad, rng.random() < 0.7, nin, [rng.choice(KINDS5) for _ in range(nin)],
+             [rng.choice(KINDS5) for _ in range(n_out(g, nin))])
+
+
+def fail_arms(case):
+  """Failing-call cases: where the failures sit and what the output re-batcher holds when they happen (from the case alone)."""
+  groups = call_groups(case)
+  failing = [i for i, grp in enumerate(groups) if group_fails(case, grp)]
+  if not failing:
+    return {'fail:none'} if 'poison' in case else set()
+  g, b, n = ROW_FNS[case['g']], case['target'], len(groups)
+  mode = 'skip-on' if case.get('ignore_error') else 'skip-off'
+  out = {f'fail:{mode}', f'fail:{mode}:' + ('fb=0' if case['fn_batch'] == 0 else 'fb>0'), 'fail:several' if len(failing) > 1 else 'fail:single'}
+  if case['g'] == 'callno':
+    out.add(f'fail:{mode}:stateful-fn')
+  if len(failing) == n:
+    out.add(f'fail:{mode}:all-calls')
+  if len(failing) == 1:
+    out.add(f'failpos:{n}:{failing[0]}:{mode}')
+  if b == 0:
+    out.add(f'fail:{mode}:b=0')
+    return out
+  carried = 0
+  for i, grp in enumerate(groups):
+    if i in failing:
+      where = 'first' if i == 0 else ('last' if i == n - 1 else 'middle')
+      later = any(j not in failing and sum(len(g(r)) for r in groups[j]) for j in range(i + 1, n))
+      out.add(f"fail:{mode}:carry-{'nonempty' if carried else 'empty'}:{where}")
+      if carried and later:
+        out.add(f'fail:{mode}:carry-nonempty:rows-after')
+    else:
+      carried = (carried + sum(len(g(r)) for r in grp)) % b
+  return out
+
+
+FAIL_POSITIONS = [(n, k) for n in (3, 4, 5, 6) for k in range(n)]
+REQUIRED_FAIL = ([f'fail:{m}:carry-{c}:{w}' for m in ('skip-on', 'skip-off') for c in ('nonempty', 'empty') for w in ('first', 'middle', 'last')
+                  if not (c == 'nonempty' and w == 'first')] +
+                 [f'fail:{m}:{x}' for m in ('skip-on', 'skip-off') for x in ('fb=0', 'fb>0', 'b=0', 'all-calls', 'carry-nonempty:rows-after', 'stateful-fn')] +
+                 ['fail:several', 'fail:single', 'fail:none'] +
+                 [f'failpos:{n}:{k}:{m}' for n, k in FAIL_POSITIONS for m in ('skip-on', 'skip-off')])
 
 
 def flush_arms(sizes, t, padded):
@@ -333,11 +634,20 @@ def branches(case):
         out.add('nd-array:merge')
       if 'exhausted:remainder-padded' in out:
         out.add('nd-array:padded')
+    # element types: which kind x family went through a merge of several chunks / got a padded final batch (and with what pad)
+    pc = pad_class(case.get('pad'))
+    for c in case['batches'][0]:
+      kc = 'seq' if c['k'] in ('list', 'tuple') else ('nd' if c['k'] in ND_TAIL else c['k'])
+      if 'merge:>=2-chunks' in out:
+        out.add(f'elem:{kc}:{fam_of(c)}:merged')
+      if 'exhausted:remainder-padded' in out:
+        out.add(f'pad:{kc}:{fam_of(c)}:{pc}')
     return out
   if not case['batches']:
     return {'empty-stream'}
   fb, g = case['fn_batch'], case['g']
   calls, outs = mid_sizes(case)
+  out |= fail_arms(case)
   nd_out = bool(set(kinds_out_of(case)) & set(ND_TAIL))
   if fb:
     st1 = flush_arms([len(bt[0]['r']) for bt in case['batches']], fb, False)
@@ -366,7 +676,16 @@ REQUIRED_BRANCHES = ['identity', 'empty-stream', 'zero-rows-buffered', 'below-ta
                      'flush:multi-slice', 'flush:exact-fit', 'flush:carry-remainder', 'exhausted:nothing-buffered',
                      'exhausted:remainder', 'exhausted:remainder-padded', 'merge:>=2-chunks', 'nd-array:merge',
                      'nd-array:padded', 'malformed:ragged', 'malformed:cols', 'malformed:other', 'malformed:zerocols']
-REQUIRED_PIPELINE = ['flush:multi-slice', 'flush:carry-remainder', 'exhausted:remainder', 'malformed:ragged',
+# element types (direct cases): every kind x family through a multi-chunk merge, and padded final batches whose pad value has
+# another type than the data (int pad on float / float32 / bool data, '' on strings, float pad on int data, numpy scalars, ...)
+REQUIRED_TYPED = ([f'elem:seq:{f}:merged' for f in SEQ_FAMS] + [f'elem:array:{f}:merged' for f in ARR_FAMS] +
+                  [f'elem:nd:{f}:merged' for f in ND_FAMS] +
+                  ['pad:array:float:int', 'pad:array:f32:int', 'pad:array:str:str', 'pad:array:int:float', 'pad:array:bool:int',
+                   'pad:array:float:bool', 'pad:array:int:np', 'pad:array:str:int', 'pad:array:float:float',
+                   'pad:nd:float:int', 'pad:nd:f32:int', 'pad:nd:str:str', 'pad:nd:int:float', 'pad:nd:bool:int',
+                   'pad:seq:float:int', 'pad:seq:str:str', 'pad:seq:int:float', 'pad:seq:mixed:int', 'pad:seq:none:int',
+                   'pad:seq:nested:int', 'pad:seq:bool:str', 'pad:seq:int:bool'])
+REQUIRED_PIPELINE = ['flush:multi-slice', 'flush:carry-remainder', 'exhausted:remainder', 'malformed:ragged', 'malformed:ragged-skip',
                      'merge:>=2-chunks', 'nd-array:merge', 'zero-rows-buffered',
                      'rowfn:expand:fb=b', 'rowfn:expand:fb!=b', 'rowfn:expand:fb=0', 'rowfn:drop:fb=b', 'rowfn:drop:fb!=b',
                      'rowfn:drop:fb=0', 'rowfn:empty-intermediate-batch']
@@ -383,14 +702,16 @@ def gen_cases(ctx):
       yield case
   yield from counted(ctx.corpus())
   yield from counted(gen_direct(ctx))
+  yield from counted(gen_typed(ctx))
   yield from counted(gen_via(ctx))
+  yield from counted(gen_fail(ctx))
 
 
 def extra(ctx):
   """Coverage promise of the generator: every arm of the re-batching logic is exercised (else: infrastructure failure)."""
   from harness.core import InfraError
-  missing = [b for b in REQUIRED_BRANCHES if b not in ctx.hist.get('branch:direct', {})]
-  missing += ['pipeline:' + b for b in REQUIRED_PIPELINE if b not in ctx.hist.get('branch:pipeline', {})]
+  missing = [b for b in REQUIRED_BRANCHES + REQUIRED_TYPED if b not in ctx.hist.get('branch:direct', {})]
+  missing += ['pipeline:' + b for b in REQUIRED_PIPELINE + REQUIRED_FAIL if b not in ctx.hist.get('branch:pipeline', {})]
   missing += ['entry:' + v for v in ('apply', 'select', 'batch', 'assign') if v not in ctx.hist.get('entry_point', {})]
   if missing:
     raise InfraError(f'generator missed promised branches: {missing}')
@@ -412,10 +733,10 @@ class _Counted:
 
 def run_direct(case):
   from ml_metrics._src.utils import iter_utils
-  batches = [tuple(mk_col(c['k'], c['r']) for c in b) for b in case['batches']]
+  batches = [tuple(mk_col(c['k'], c['r'], fam_of(c)) for c in b) for b in case['batches']]
   kw = {}
   if case['pad'] is not None:
-    kw['pad'] = case['pad']
+    kw['pad'] = pad_value(case['pad'])
   src = _Counted(batches)
   it = iter_utils.rebatched_args(src, case['target'], num_columns=case['ncols'], **kw)
   out, pulls, err = [], [], None
@@ -431,9 +752,16 @@ def run_direct(case):
 def _batch_fn(case):
   g, kinds_out, bare = ROW_FNS[case['g']], case['kinds_out'], case['bare']
 
+  poison = set(case.get('poison') or ())
+
+  calls = [0]     # private state of the function: how often it has been called
+
   def fn(*cols):
+    k, calls[0] = calls[0], calls[0] + 1
     rows = list(zip(*[col_ids(c) for c in cols]))
-    outs = [o for r in rows for o in g(list(r))]
+    if any(r[0] in poison for r in rows):
+      raise RuntimeError(f'cannot score rows {[r[0] for r in rows]}')     # `_maybe_call_fn` re-raises it as ValueError
+    outs = [o for r in rows for o in apply_g(case, k, list(r))]
     res = tuple(mk_col(k, [o[c] for o in outs]) for c, k in enumerate(kinds_out))
     if len(res) == 1 and bare and kinds_out[0] != 'tuple':
       return res[0]          # a bare column: `_normalize_outputs` has to wrap it
@@ -473,7 +801,8 @@ def run_via(case):
     raise ValueError(via)
   out, ins, err = [], [], None
   try:
-    for tree in p.make().iterate(iter(inputs)):
+    kw = {'ignore_error': True} if case.get('ignore_error') else {}
+    for tree in p.make().iterate(iter(inputs), **kw):
       out.append([col_obs(tree)] if read is None else [col_obs(tree[k]) for k in read])
       if via == 'assign':
         ins.append([col_obs(tree[k]) for k in in_keys])
@@ -508,36 +837,49 @@ def assign_aligned(case):
 
 
 def to_wire(batches):
-  """n-D array columns travel as kind 'array' + row ids (rows are opaque in the model)."""
+  """Columns travel as container kind + row ids (elements are abstract in the model; n-D array columns as kind 'array')."""
   return [[{'k': wire_kind(c['k']), 'r': c['r']} for c in bt] for bt in batches]
 
 
-def from_wire(out, declared):
-  """Inverse of `to_wire` on the model's output: column c was declared with kind declared[c]."""
-  return [[{'k': declared[i] if (col['k'] == 'array' and i < len(declared) and declared[i] in ND_TAIL) else col['k'],
-            'r': col['r']} for i, col in enumerate(bt)] for bt in out]
+def from_wire(out, declared, pad=None):
+  """The model's output (kinds + ids) as an observation: column c was declared as declared[c] = (kind, family); ids are mapped
+  back to the VALUES they stand for (`expect_col`), PAD_ID to the pad value as column c stores it."""
+  res = []
+  for bt in out:
+    cols = []
+    for i, col in enumerate(bt):
+      kind, fam = declared[i] if i < len(declared) else (col['k'], 'int')
+      if not (col['k'] == 'array' and kind in ND_TAIL):
+        kind = col['k']
+      if kind == 'other':
+        cols.append({'k': 'other', 'v': [tv(x) for x in col['r']]})
+      else:
+        cols.append(expect_col(kind, fam, col['r'], pad))
+    res.append(cols)
+  return res
 
 
 def model_requests(case):
   if case.get('via'):
     return [dict(model='rebatch', op='treefn', target=case['target'], fn_batch=case['fn_batch'],
                  ncols=case['ncols'], nout_kinds=[wire_kind(k) for k in kinds_out_of(case)], g=case['g'],
-                 ident=case['via'] == 'select', batches=to_wire(case['batches']))]
-  return [dict(model='rebatch', target=case['target'], ncols=case['ncols'], pad=case['pad'],
-               batches=to_wire(case['batches']))]
+                 ident=case['via'] == 'select', skip=bool(case.get('ignore_error')), poison=case.get('poison', []),
+                 batches=to_wire(case['batches']))]
+  return [dict(model='rebatch', target=case['target'], ncols=case['ncols'],
+               pad=None if case['pad'] is None else PAD_ID, batches=to_wire(case['batches']))]
 
 
 def model_obs(case, resps):
   r = resps[0]
   if not case.get('via'):
-    declared = [c['k'] for c in case['batches'][0]] if case['batches'] else []
-    return dict(out=from_wire(r['out'], declared), err=r['err'], pulls=r['pulls'])
-  obs = dict(out=from_wire(r['out'], kinds_out_of(case)), err=r['err'])
+    declared = [(c['k'], fam_of(c)) for c in case['batches'][0]] if case['batches'] else []
+    return dict(out=from_wire(r['out'], declared, case['pad']), err=r['err'], pulls=r['pulls'])
+  obs = dict(out=from_wire(r['out'], [(k, 'int') for k in kinds_out_of(case)]), err=r['err'])
   if case['via'] == 'assign':
     if not assign_aligned(case):
       return dict(skip='Assign outside the aligned domain (finding F-C19-assign): the model of TreeFn._iterate does not say '
                        'how Assign pairs outputs with inputs')
-    obs['ins'] = case['batches'][:len(r['out'])]
+    obs['ins'] = [[decl_obs(c) for c in bt] for bt in case['batches'][:len(r['out'])]]
   return obs
 
 
@@ -564,24 +906,12 @@ def well_formed(case):
   return n > 0
 
 
-def check_columns(out):
-  """Every emitted column is a container of whole rows (col_obs marks torn / glued n-D rows with '!')."""
-  for j, b in enumerate(out):
-    for c, col in enumerate(b):
-      if '!' in col['k']:
-        return f"batch {j} column {c}: rows are not the input rows any more ({col['k']})"
-  return None
-
-
 def check_shapes(out, ncols, t, pad):
   """Sizes and rectangularity of the emitted batches (target t > 0)."""
-  bad = check_columns(out)
-  if bad:
-    return bad
   for j, b in enumerate(out):
     if len(b) != ncols:
       return f'batch {j} has {len(b)} columns, expected {ncols}'
-    lens = {len(c['r']) for c in b}
+    lens = {len(c['v']) for c in b}
     if len(lens) != 1:
       return f'batch {j} has columns of different lengths {sorted(lens)}'
     L = lens.pop()
@@ -594,74 +924,129 @@ def check_shapes(out, ncols, t, pad):
   return None
 
 
+def check_rows(out, c, kind, fam, want_ids, pad, what):
+  """Column c of the emitted batches holds exactly the rows `want_ids` (PAD_ID = a padding row), each with the VALUE AND TYPE it had
+  in the input: element by element (type, repr); for array columns also the dtype of every emitted batch and the shape of its rows."""
+  want = expect_col(kind, fam, want_ids, pad)
+  got = [v for b in out for v in b[c]['v']]
+  if got != want['v']:
+    i = next((i for i, (x, y) in enumerate(zip(got, want['v'])) if x != y), min(len(got), len(want['v'])))
+    return (f'{what} column {c}: row {i} of the emitted rows is {got[i] if i < len(got) else "missing"}, the input row (or padding) '
+            f'there is {want["v"][i] if i < len(want["v"]) else "nothing"} ({len(got)} rows emitted, {len(want["v"])} expected)')
+  if 'dtype' in want:
+    for j, b in enumerate(out):
+      if b[c].get('dtype') != want['dtype']:
+        return f"{what} column {c}, batch {j}: dtype {b[c].get('dtype')} but the input rows have dtype {want['dtype']}"
+      if b[c].get('shape', [None])[1:] != want['shape'][1:]:
+        return f"{what} column {c}, batch {j}: shape {b[c].get('shape')} but every input row has shape {want['shape'][1:]}"
+  return None
+
+
 def oracle_direct(case, obs):
   t, bs, pad = case['target'], case['batches'], case['pad']
   if obs['err'] is not None:
     return f"well-formed stream raised {obs['err']}"
   out = obs['out']
   if t == 0:
-    return None if out == bs else 'target 0 is not the identity'
+    return None if out == [[decl_obs(c) for c in b] for b in bs] else 'target 0 is not the identity'
   ncols = len(bs[0]) if bs else (case['ncols'] or 0)
   total = sum(len(b[0]['r']) for b in bs) if bs else 0
   bad = check_shapes(out, ncols, t, pad)
   if bad:
     return bad
   npad = 0 if pad is None else (t - total % t) % t
+  if not bs:
+    return 'an empty stream produced batches' if out else None
   for c in range(ncols):
-    want = [x for b in bs for x in b[c]['r']] + [pad] * npad
-    got = [x for b in out for x in b[c]['r']]
-    if got != want:
-      return f'column {c}: emitted rows {got} != input rows (+padding) {want}'
+    # padding only appends: the emitted rows are the input rows, unchanged in value and type, then the pad value
+    bad = check_rows(out, c, bs[0][c]['k'], fam_of(bs[0][c]), [x for b in bs for x in b[c]['r']] + [PAD_ID] * npad, pad, '')
+    if bad:
+      return bad.strip()
   # online: a batch must come out as soon as its rows have been received, never earlier
   seen = [0]
   for b in bs:
     seen.append(seen[-1] + len(b[0]['r']))
   done = 0
   for j, (b, k) in enumerate(zip(out, obs['pulls'])):
-    done += len(b[0]['r'])
+    done += len(b[0]['v'])
     need = min(done, total)     # padding rows are not received
     first = next(i for i, s in enumerate(seen) if s >= need)     # batches needed to have `need` rows
-    full = len(b[0]['r']) == t and done <= total
+    full = len(b[0]['v']) == t and done <= total
     want_k = first if full else len(bs) + 1                      # the remainder only at exhaustion
     if k != want_k:
       return f'batch {j} was emitted after {k} source requests, expected {want_k}'
   return None
 
 
+def call_groups(case):
+  """via cases: the groups of input rows the function is called with (fn_batch_size rows each, the last shorter; the incoming
+  batches if fn_batch_size = 0), from the definition of fn_batch_size."""
+  bs, fb = case['batches'], case['fn_batch']
+  rows = [[c['r'][i] for c in bt] for bt in bs for i in range(len(bt[0]['r']))]
+  sizes = [len(bt[0]['r']) for bt in bs]
+  if fb:
+    sizes = [fb] * (len(rows) // fb) + ([len(rows) % fb] if len(rows) % fb else [])
+  groups, pos = [], 0
+  for n in sizes:
+    groups.append(rows[pos:pos + n])
+    pos += n
+  return groups
+
+
+def group_fails(case, group):
+  poison = set(case.get('poison') or ())
+  return any(r[0] in poison for r in group)
+
+
 def oracle_via(case, obs):
   bs, b, nin, g = case['batches'], case['target'], case['ncols'], ROW_FNS[case['g']]
-  if obs['err'] is not None:
-    return f"well-formed stream raised {obs['err']} through Pipeline.{case['via']}"
   out = obs['out']
   nout = n_out(case['g'], nin)
-  rows = [[c['r'][i] for c in bt] for bt in bs for i in range(len(bt[0]['r']))]
-  want_rows = [o for r in rows for o in g(r)]     # flat-map of the row function over the input rows, in order
+  kinds_out = kinds_out_of(case)
+  groups = list(enumerate(call_groups(case)))      # (call number, rows of the call)
+  failing = [i for i, grp in groups if group_fails(case, grp)]
+  skip = bool(case.get('ignore_error'))
+  if failing and not skip:
+    # the first failing call ends the run with its error; what came out before are complete batches of rows of the EARLIER calls
+    if obs['err'] != 'ValueError':
+      return f"a failing call (skipping off) must surface as ValueError, got {obs['err']}"
+    groups, partial = groups[:failing[0]], True
+  else:
+    if obs['err'] is not None:
+      return f"well-formed stream raised {obs['err']} through Pipeline.{case['via']}" + (' with ignore_error' if skip else '')
+    # skipping on: a failing call drops exactly the rows of its own group; every row returned by a successful call was handed
+    # to the output re-batcher and has to come out, in order (also the rows it carried over when a later call failed)
+    groups, partial = [(i, grp) for i, grp in groups if i not in failing], False
+  # flat-map of the row function over the rows of those calls (a function with state sees its call number)
+  want_rows = [o for k, grp in groups for r in grp for o in apply_g(case, k, r)]
+  if partial and b > 0:
+    want_rows = want_rows[:len(want_rows) // b * b]                # rows held back by the re-batcher die with the error
   if b > 0:
     bad = check_shapes(out, nout, b, None)
     if bad:
       return bad
-  else:       # no re-batching at all: one output batch per input batch, holding what the function returns for it
-    bad = check_columns(out)
-    if bad:
-      return bad
-    if [len(o[0]['r']) for o in out] != [sum(len(g([c['r'][i] for c in bt])) for i in range(len(bt[0]['r']))) for bt in bs]:
+    if partial and out and len(out[-1][0]['v']) != b:
+      return 'an incomplete batch was emitted before the error'
+  else:       # no re-batching at all: one output batch per call, holding what the function returns for it
+    if [len(o[0]['v']) for o in out] != [sum(len(g(r)) for r in grp) for _, grp in groups]:
       return 'batch_size=0 changed the batch boundaries'
   for c in range(nout):
-    got = [x for o in out for x in o[c]['r']]
-    want = [r[c] for r in want_rows]
-    if got != want:
-      return f'output column {c}: {got} != row-wise function of the input rows {want}'
+    bad = check_rows(out, c, kinds_out[c] if c < len(kinds_out) else 'list', 'int', [r[c] for r in want_rows], None, 'output')
+    if bad:
+      return bad + (f' (calls {failing} of {len(call_groups(case))} fail, ignore_error={skip})' if failing else '')
   if case['via'] == 'assign':
     # every emitted tree: the assigned columns and the original columns describe the same rows
     ins = obs['ins']
+    rows = [r for grp in call_groups(case) for r in grp]
     for j, (o, i) in enumerate(zip(out, ins)):
-      lens = {len(c['r']) for c in o + i}
+      lens = {len(c['v']) for c in o + i}
       if len(lens) != 1:
         return f'tree {j}: assigned and original columns have different lengths {sorted(lens)}'
+      oi, ii = [ids_of_obs(c) for c in o], [ids_of_obs(c) for c in i]
       for r in range(lens.pop()):
-        if [[c['r'][r] for c in o]] != g([c['r'][r] for c in i]):
+        if [[c[r] for c in oi]] != g([c[r] for c in ii]):
           return f'tree {j} row {r}: assigned values do not belong to the original row'
-    if [x for i in ins for x in i[0]['r']] != [r[0] for r in rows]:
+    if [x for i in ins for x in ids_of_obs(i[0])] != [r[0] for r in rows]:
       return 'original rows were lost or duplicated by Assign with batch_size'
   return None
 
@@ -697,9 +1082,27 @@ def neighbours(case, rng):
   if case.get('via'):
     for fb in range(0, 5):
       c = copy.deepcopy(case); c['fn_batch'] = fb if c['target'] else 0; yield c
+    if case['via'] == 'apply' and case['batches']:      # the same run with one failing call, with and without skipping
+      for k, grp in enumerate(call_groups(case)):
+        for skip in (True, False):
+          if grp:
+            c = copy.deepcopy(case); c['poison'] = [grp[0][0]]; c['ignore_error'] = skip; yield c
   else:
-    for p in (None, 0, 5):
-      c = copy.deepcopy(case); c['pad'] = p; yield c
+    for p in (None, 0, 5, 'i-1', 'f0.5', 'bF', 's'):
+      c = copy.deepcopy(case); c['pad'] = p
+      if not c['batches'] or pad_compatible(p, c['batches'][0]):
+        yield c
+    for fam in FAMS:      # the same stream with other element types
+      c = copy.deepcopy(case)
+      for bt in c['batches']:
+        for col in bt:
+          is_arr = col['k'] == 'array' or col['k'] in ND_TAIL
+          f = arr_fam(col['k'], fam) if is_arr else ('float' if fam == 'f32' else fam)
+          col.pop('e', None)
+          if f != 'int' and col['k'] != 'other':
+            col['e'] = f
+      if not c['batches'] or pad_compatible(c['pad'], c['batches'][0]):
+        yield c
   for i in range(len(case['batches'])):
     c = copy.deepcopy(case); del c['batches'][i]; yield c
   for _ in range(200):
